@@ -44,6 +44,11 @@ LEN_JOBS = [(el, n, where, W) for el in ('int', 'byte', 'bool', 'string')
 # bool arrays whose length is within 7 of the largest signed word fit a big enough stack (ceil(n / 8) bytes) and must
 # then be allocated, not reported as stack_overflow: the size computation must not overflow on n + 7
 LEN_JOBS += [('bool', n, 'bigstack', W) for n in ('max-8', 'max-7', 'max-6', 'max-3', 'max-1', 'max') for W in (2, 3)]
+# negative lengths at the LARGEST stack size the compiler accepts at this word size (found by bisection against the
+# compiler itself, so the job follows whatever limit the tree under test enforces): a negative byte length is only
+# caught by the unsigned space guard, which is sound only while the free stack stays below 2^(bits-1) bytes
+LEN_JOBS += [(el, n, 'maxstack', 2) for el in ('byte', 'int', 'bool', 'string')
+             for n in ('-1', '-8', 'neg:100', 'neg:9000', 'neg:20000', 'neg:30000', 'neg:32000', 'min', 'min+1')]
 NLP_JOBS = [(shape, follow, kind) for shape in ('direct', 'in_for', 'in_while', 'in_if', 'in_else', 'in_elif',
                                                  'in_block', 'in_for_if', 'in_while_else', 'after_return',
                                                  'unreachable', 'none')
@@ -53,6 +58,25 @@ TIERS = {
     'quick': {'cases': N_FIXED + 500, 'wall': 100, 'chunk': 16},
     'thorough': {'cases': N_FIXED + 30000, 'wall': 1200, 'chunk': 32},
 }
+
+
+_MAXSTACK = {}
+
+
+def largest_accepted_stack(W):
+    """Largest -s value the compiler under test accepts at this word size (bisection on accept / reject)."""
+    if W not in _MAXSTACK:
+        from ..runner import build
+        src = 'empty @is_you() { }'
+        lo, hi = 1, 1 << (8 * W)
+        while lo < hi:
+            mid = (lo + hi + 1) // 2
+            if build(src, W=W, stack=mid).error_kind == 'rejected':
+                hi = mid - 1
+            else:
+                lo = mid
+        _MAXSTACK[W] = lo
+    return _MAXSTACK[W]
 
 
 def W_of(idx):
@@ -183,6 +207,10 @@ def len_value(n, el, W):
     maxlen = maxs if el in ('byte', 'bool') else maxs // W
     if n.startswith('max-'):
         return maxs - int(n[4:])
+    if n.startswith('neg:'):
+        return -int(n[4:])
+    if n == 'min+1':
+        return -maxs
     if n.startswith('wrap'):
         j = int(n[4])
         v = -((-j << (8 * W)) // W) + (1 if n.endswith('+1') else 0)
@@ -304,6 +332,9 @@ def case(seed, idx, tier):
     ecfg = dict(W=W, stack=1200 if label.startswith('length') else 2500, max_steps=2_000_000)
     if ' bigstack ' in label:
         ecfg['stack'] = ((1 << (8 * W - 1)) >> 3) // W + 600
+    if ' maxstack ' in label:
+        ecfg['stack'] = largest_accepted_stack(W)
+        res['max']['largest_accepted_stack_words'] = ecfg['stack']
     found, ev = common.problems_of(p, argv, ecfg)
     common.add_counters(res, ev)
     res['key'] = digest(ev.src, argv, W)
